@@ -388,10 +388,10 @@ def check(ctx):
     top = ctx.model.func(Q)
     ctx.analysed(Q)
     lists = check_follow_wire(ctx, top)
-    check_find_snake(ctx, top)
-    check_unsnake(ctx, top, lists)
-    check_driver(ctx, top)
-    check_cup_cap(ctx)
+    ctx.attempt(check_find_snake, ctx, top)
+    ctx.attempt(check_unsnake, ctx, top, lists)
+    ctx.attempt(check_driver, ctx, top)
+    ctx.attempt(check_cup_cap, ctx)
     from ..core import Ctx
     from . import c05, c06
     for dep, what in ((c05, "interchange, the primitive of every step (C05)"), (c06, "the monoidal normaliser that finishes the job (C06)")):
